@@ -154,13 +154,26 @@ def _roundtrip(d, tmp, tier, ncase, suffix, lo, hi):
     rng = d.rng
     for i in range(lo, hi):
         fs, shape, vals, mask, folded, labels = rand_spectrum(dadi, numpy, rng, i)
+        layout = 'C'
+        if len(shape) >= 2 and rng.random() < 0.4:
+            # same logical content in a non-C-contiguous memory layout (what transpose / swapaxes / reorder_pops hand back):
+            # the file format is defined on the logical (row-major) order, whatever the strides are
+            perm = list(range(len(shape)))
+            while perm == sorted(perm):
+                rng.shuffle(perm)
+            inv = [perm.index(a) for a in range(len(shape))]
+            dnc = numpy.ascontiguousarray(numpy.asarray(fs.data).transpose(perm)).transpose(inv)
+            mnc = numpy.ascontiguousarray(numpy.ma.getmaskarray(fs).transpose(perm)).transpose(inv)
+            fs = dadi.Spectrum(dnc, mask=mnc, mask_corners=False, data_folded=folded, pop_ids=labels)
+            layout = 'strided, axes stored in order %s' % perm
         p = rng.choice([16, 16, 17, 18, 19, 20, rng.randint(16, 30)])
         comments = [rng.choice(COMMENTS) for _ in range(rng.randint(0, 5))]
         old = rng.random() < 0.2
         mc = rng.random() < 0.5
         fname = os.path.join(tmp, 'fs_%d%s' % (i, suffix))
         info = dict(shape=list(shape), precision=p, comments=comments, labels=labels, folded=folded, foldmaskinfo=not old,
-                    mask_corners=mc, values=short(vals), mask=[int(m) for m in mask[:8]], file=os.path.basename(fname))
+                    mask_corners=mc, values=short(vals), mask=[int(m) for m in mask[:8]], file=os.path.basename(fname), memory_layout=layout,
+                    c_contiguous=bool(numpy.asarray(fs.data).flags['C_CONTIGUOUS']))
         key = (i, shape, p, folded, old, mc, len(comments), tuple(labels or ()))
         nontriv = not all(mask)
         gzname = suffix.endswith('.gz')
@@ -272,7 +285,7 @@ def hand_text(comments, shape, folded, labels, value_tokens, mask, sep=' '):
     return '\n'.join(out) + '\n'
 
 
-BOUND_RT = ('%d seeded spectra per tier-slice: 1-5 dims with singleton axes (16 fixed edge shapes first, then random, <=3125 entries), '
+BOUND_RT = ('%d seeded spectra per tier-slice (40%% of those with >= 2 axes held in a non-C-contiguous, axis-permuted memory layout): 1-5 dims with singleton axes (16 fixed edge shapes first, then random, <=3125 entries), '
             'values 10^U(-300,300) both signs, 0, integers to 1e17, nan, +-inf; masks none/random/all/corners; '
             'folded 35%% (consistent folded-out mask); labels from a 12-item pool incl. spaces, leading/trailing/double spaces, quotes-free '
             'punctuation, the words folded/unfolded, or no labels; 0-5 comments (padding, #, tab, empty, quotes); precision 16..30; '
